@@ -827,6 +827,63 @@ def rule_r8(rep, program: Program):
     return r
 
 
+def rule_r9(rep, program: Program, prop=PROP, rule="R9"):
+    """A value returned by a state-cached method *is* the cache entry (and is shared by every copy
+    of the state): updating it in place changes what later calls return."""
+    PROP = prop  # noqa: N806
+    r = rep.rule(rule, "values returned by state-cached methods are never updated in place (augmented assignment, subscript store, out=, mutating method) - the returned array is the cache entry, shared by all copies of the state", floor=8)
+    cached: dict[str, str] = {}  # method name -> return annotation text
+    for k in system_classes(program):
+        for c in k.mro:
+            for mname, m in c.methods.items():
+                if m.cache_deps is not None:
+                    cached.setdefault(mname, norm(m.node.returns) if m.node.returns is not None else "")
+    # auxiliary outputs are cached under their own method names too (already in the table)
+    array_valued = {n for n, ann in cached.items() if "Scalar" not in ann and "float" not in ann}
+    r.inst({"cached methods": len(cached), "array or object valued": len(array_valued)})
+    n_bound = 0
+    for fn in program.all_functions():
+        if fn.module.name in ("mici.states",):
+            continue
+        # locals bound directly to the result of a cached method call
+        bound: dict[str, ast.Call] = {}
+        for n in ast.walk(fn.node):
+            if isinstance(n, ast.Assign) and len(n.targets) == 1 and isinstance(n.targets[0], ast.Name) and isinstance(n.value, ast.Call) and isinstance(n.value.func, ast.Attribute) and n.value.func.attr in array_valued and len(n.value.args) == 1 and not n.value.keywords:
+                recv = norm(n.value.func.value)
+                if recv in ("self", "self.system", "system", "self._system"):
+                    bound[n.targets[0].id] = n.value
+        if not bound:
+            continue
+        # a name that is also bound to something else anywhere in the function is not tracked
+        for n in ast.walk(fn.node):
+            if isinstance(n, ast.Assign):
+                for t in n.targets:
+                    for tt in (t.elts if isinstance(t, ast.Tuple) else [t]):
+                        if isinstance(tt, ast.Name) and tt.id in bound and n.value is not bound[tt.id]:
+                            bound.pop(tt.id, None)
+        for nm, call in bound.items():
+            n_bound += 1
+            sites = []
+            for n in ast.walk(fn.node):
+                if isinstance(n, ast.AugAssign) and isinstance(n.target, ast.Name) and n.target.id == nm:
+                    sites.append((n, f"`{norm(n)[:60]}` updates it in place"))
+                if isinstance(n, (ast.Assign, ast.AugAssign)):
+                    for t in (n.targets if isinstance(n, ast.Assign) else [n.target]):
+                        if isinstance(t, ast.Subscript) and isinstance(t.value, ast.Name) and t.value.id == nm:
+                            sites.append((n, f"`{norm(n)[:60]}` stores into it"))
+                if isinstance(n, ast.Call):
+                    for kw in n.keywords:
+                        if kw.arg == "out" and any(isinstance(x, ast.Name) and x.id == nm for x in ast.walk(kw.value)):
+                            sites.append((n, f"`{norm(n)[:60]}` writes into it through out="))
+                    if isinstance(n.func, ast.Attribute) and isinstance(n.func.value, ast.Name) and n.func.value.id == nm and n.func.attr in MUTATING_METHODS:
+                        sites.append((n, f"`{norm(n)[:60]}` mutates it"))
+            r.inst({"function": fn.qualname, "local": nm, "holds": norm(call)[:50], "mutated": bool(sites)})
+            for n, how in sites:
+                r.violate(PROP, f"{fn.qualname}:mutates-cached:{call.func.attr}:{nm}", f"in {fn.qualname} the local `{nm}` is the array returned by the state-cached method `{norm(call)}` and {how}: the array is the cache entry itself (shared with every copy of the state), so each further call at the same position returns the already-updated array - the result depends on how often it was requested", node=n, file=fn.file)
+    r.inst({"locals bound to cached results": n_bound})
+    return r
+
+
 def run(rep, program: Program, tier: str) -> None:
     rep.explanation = (
         "Static effect analysis of the cache protocol: for every concrete System class the "
@@ -857,5 +914,6 @@ def run(rep, program: Program, tier: str) -> None:
     rule_r6(rep, program)
     rule_r7(rep, program)
     rule_r8(rep, program)
+    rule_r9(rep, program)
     rep.extra["callsites_resolved"] = se.resolved_calls
     rep.extra["callsites_unresolved"] = len(se.unresolved)
